@@ -155,7 +155,7 @@ theorem specRoutesFrom_take (script : List Reg) : ∀ (i : Nat) (R : List Route)
     | zero => simp [specRoutesFrom]
     | succ k =>
       simp only [specRoutesFrom] at h
-      cases hp : parsePattern (g.groups.foldr (· ++ ·) g.path) with
+      cases hp : parsePattern (regText g) with
       | none => simp [hp] at h
       | some p =>
         cases hr : specRoutesFrom (i + 1) gs with
